@@ -10,7 +10,6 @@ namespace Tea.Props.Bridge.C07
 theorem order_Program_Run : Tea.Gen.fact_order_Program_Run = Tea.Doc.fact_order_Program_Run := rfl
 theorem order_Program_shutdown : Tea.Gen.fact_order_Program_shutdown = Tea.Doc.fact_order_Program_shutdown := rfl
 theorem order_standardRenderer_stop : Tea.Gen.fact_order_standardRenderer_stop = Tea.Doc.fact_order_standardRenderer_stop := rfl
-theorem body_standardRenderer_write : Tea.Gen.fact_body_standardRenderer_write = Tea.Doc.fact_body_standardRenderer_write := rfl
 theorem calls : Tea.Gen.fact_calls = Tea.Doc.fact_calls := rfl
 theorem locks : Tea.Gen.fact_locks = Tea.Doc.fact_locks := rfl
 
